@@ -178,7 +178,8 @@ impl Check for C06 {
         let mut faults: Vec<Vec<FaultOp>> = Vec::new();
         let mut big = false;
         let class;
-        match rng.below(10) {
+        let mut extra_cmds: Vec<Vec<String>> = Vec::new();
+        match rng.below(11) {
             // truncation of a valid ledger: crash-point enumeration
             0..=3 => {
                 class = "tear";
@@ -313,6 +314,61 @@ impl Check for C06 {
                 }
                 faults.push(vec![]);
             }
+            // price DB content: valid lines, zero and self rates, garbage, torn at every byte
+            10 => {
+                class = "price-db";
+                let coms = ["USD", "EUR", "JPY", "CHF"];
+                let mut lines: Vec<String> = Vec::new();
+                for _ in 0..1 + rng.usize(5) {
+                    let a = coms[rng.usize(4)];
+                    let b = coms[rng.usize(4)];
+                    let d = format!("2024/0{}/{:02}", 1 + rng.below(9), 1 + rng.below(28));
+                    lines.push(match rng.below(12) {
+                        0 => format!("P {} {} 0 {}", d, a, b),
+                        1 => format!("P {} {} 0.00 {}", d, a, b),
+                        2 => format!("P {} {} 2 {}", d, a, a),
+                        3 => format!("P {} {} -3 {}", d, a, b),
+                        4 => format!("P {} {}", d, a),
+                        5 => format!("P {} {} (1 + 2) {}", d, a, b),
+                        6 => "P".to_string(),
+                        7 => format!("; comment\nP {} {} 1.5 {}", d, a, b),
+                        8 => format!("P 2024/13/01 {} 1.5 {}", a, b),
+                        _ => format!("P {} {} {}.{} {}", d, a, 1 + rng.below(200), rng.below(100), b),
+                    });
+                }
+                let mut text = lines.join("\n");
+                if rng.chance(4, 5) {
+                    text.push('\n');
+                }
+                world.extra.insert("/w/prices.db".to_string(), text.clone());
+                faults.push(vec![]);
+                let n = text.len();
+                let cuts: Vec<usize> = match tier {
+                    Tier::Thorough => (0..n).collect(),
+                    Tier::Quick => {
+                        let mut v: Vec<usize> = (0..12).map(|_| rng.usize(n.max(1))).collect();
+                        v.sort();
+                        v.dedup();
+                        v
+                    }
+                };
+                for c in cuts {
+                    faults.push(vec![FaultOp::Tear {
+                        path: "/w/prices.db".to_string(),
+                        n: c,
+                    }]);
+                }
+                for f in [Fault::Vanish, Fault::Eio] {
+                    faults.push(vec![FaultOp::Read {
+                        path: "/w/prices.db".to_string(),
+                        fault: f,
+                    }]);
+                }
+                let t = coms[rng.usize(4)];
+                extra_cmds.push(sv(&["balance", "--price-db", "/w/prices.db", "-X", t, "--now", "2024-12-31", &root]));
+                extra_cmds.push(sv(&["balance", "--price-db", "/w/prices.db", "-X", t, "--historical", &root]));
+                extra_cmds.push(sv(&["primitive", "eval", "--date", "2024-06-01", "--price-db", "/w/prices.db", "-X", t, "-f", &root, "1", coms[rng.usize(4)]]));
+            }
             // read faults on each file in turn
             _ => {
                 class = "read-fault";
@@ -340,7 +396,7 @@ impl Check for C06 {
             world,
             faults,
             proc_,
-            cmds: all_cmds(&root),
+            cmds: if extra_cmds.is_empty() { all_cmds(&root) } else { extra_cmds },
             class: class.to_string(),
             big_numbers: big,
         }
@@ -530,7 +586,7 @@ impl Check for C06 {
     }
 
     fn rule(&self) -> &'static str {
-        "worlds of six classes (valid ledger torn at byte n: every n in the thorough tier, ~30-60 biased cuts per file in the quick tier; grammar-aware mutations; deep nesting / huge literals / zero divisors; include cycles; read faults vanish/eio/denied/canonicalize-failure/bit-flip on each file in turn) x 6 commands; one evaluation = one world with all its fault sets; non-trivial = at least one fault set is non-empty or the world is hostile; distinct = structural hash of the tape"
+        "worlds of seven classes (price DB files with valid, zero-rate, self-rate, negative and malformed lines, torn at every byte in the thorough tier, fed to balance -X / --historical / eval -X; valid ledger torn at byte n: every n in the thorough tier, ~30-60 biased cuts per file in the quick tier; grammar-aware mutations; deep nesting / huge literals / zero divisors; include cycles; read faults vanish/eio/denied/canonicalize-failure/bit-flip on each file in turn) x 6 commands; one evaluation = one world with all its fault sets; non-trivial = at least one fault set is non-empty or the world is hostile; distinct = structural hash of the tape"
     }
 
     fn assumptions(&self) -> Vec<&'static str> {
